@@ -6,7 +6,8 @@
    [on_pt f] applies a coordinate map to the point of a (point, value) pair. *)
 From Coq Require Import ZArith List Bool Permutation Lia.
 From FT Require Import Model.Base Model.Obs Model.C09Transform Model.C09Check
-                       Proofs.C09OrderP Proofs.C09FlattenP Proofs.C09BelowP Proofs.C09CheckP.
+                       Proofs.C09OrderP Proofs.C09FlattenP Proofs.C09BelowP Proofs.C09CheckP
+                       Proofs.C09SwizzleP Proofs.C09WfP Proofs.C09RebuildP Proofs.C09SwapP Proofs.C09UnflP.
 Import ListNotations.
 Open Scope Z_scope.
 
@@ -58,38 +59,106 @@ Theorem C09_unflatten_inverts_point : forall levels p,
 Proof. exact imgunfl_imgflat. Qed.
 Print Assumptions C09_unflatten_inverts_point.
 
-(* unflattenRanks(flattenRanks(f)) has exactly the content of f.
-   Full statement wanted: the hypothesis [unfl_ok (S l) r] follows from [wfl (S l) es] whenever
-   r is non-empty (tuple keys of equal length, pairwise ascending => first components
-   non-decreasing, recursively).  NOT proved here; it is evaluated on every generated case by
-   the correspondence (the model's unflatten returning None would be Verr 3, which the oracle
-   rejects). *)
-Theorem C09_unflatten_flatten_partial : forall l style raise fuel shapes d es r,
+(* the flattened fiber holds only non-empty payloads under keys of levels+1 components, and
+   (when it has elements) lies in the domain of unflattenRanks(levels) *)
+Theorem C09_flatten_in_unflatten_domain : forall l style raise fuel shapes d es r,
   style = st_tuple \/ style = st_pair -> wfl (S l) es ->
-  merge_helper (S l) style raise fuel shapes d es = Some r -> unfl_ok (S l) r ->
-  exists r', unflatten (S l) r = Some r' /\ ccontent d (CN r') = ccontent d (CN es).
-Proof. exact unflatten_flatten_content. Qed.
-Print Assumptions C09_unflatten_flatten_partial.
+  merge_helper (S l) style raise fuel shapes d es = Some r ->
+  Forall (fun cp : coord * ct => cempty d (snd cp) = false) r
+  /\ Forall (fun cp : coord * ct => length (fst cp) = S (S l)) r
+  /\ (r <> [] -> unfl_ok (S l) r).
+Proof. exact flatten_unfl_facts. Qed.
+Print Assumptions C09_flatten_in_unflatten_domain.
 
-(* swizzleRanks, first half: the DFS extraction represents the content exactly, and the list
-   handed to the rebuild loop (permute the key of every extracted sub-tree, sort) carries
-   exactly the operand's points with the leading [sl] coordinates permuted.
-   Full statement wanted (C09_swizzle):
-     Permutation (ccontent d (swizzle perm t))
-                 (map (on_pt (permute_key perm)) (ccontent d t))  /\  csorted (swizzle perm t)
-   Missing: the rebuild loop's invariant (the rightmost path of the tree under construction
-   spells last_coord, so that [rappend (cpl ...)] appends under the shared prefix:
-   ccontent (rebuild kvs) = keyed kvs for keys of equal length), and the swap / merge
-   (absolute, relative) / flatten(split) clauses.  All of them are evaluated by the oracle on
-   the implementation and on the model (verdict bit 4) for every generated case. *)
-Theorem C09_swizzle_items_partial : forall d sl g t, fibers_to sl t ->
-  ccontent d t = keyed d (extract sl t)
-  /\ Permutation
-       (keyed d (sort_by kcmp fst (map (fun kp => (permute_key g (fst kp), snd kp)) (rev (extract sl t)))))
-       (flat_map (fun kp => map (on_pt (app (permute_key g (fst kp)))) (ccontent d (snd kp)))
-                 (extract sl t)).
-Proof. intros d sl g t H. split; [apply extract_content; exact H|apply swizzle_sorted_items; exact H]. Qed.
-Print Assumptions C09_swizzle_items_partial.
+(* unflattenRanks(flattenRanks(f)) has exactly the content of f, for every number of levels,
+   with explicit defaults and empty sub-fibers anywhere.  (A fiber that flattens to nothing is
+   the case Tensor.unflattenRanks' all-empty guard answers with an empty root; it has no
+   content either.) *)
+Theorem C09_unflatten_flatten : forall l style raise fuel shapes d es,
+  style = st_tuple \/ style = st_pair -> wfl (S l) es ->
+  exists r, merge_helper (S l) style raise fuel shapes d es = Some r /\
+    (r <> [] -> exists r', unflatten (S l) r = Some r' /\ ccontent d (CN r') = ccontent d (CN es)) /\
+    (r = [] -> ccontent d (CN es) = []).
+Proof. exact unflatten_flatten_full. Qed.
+Print Assumptions C09_unflatten_flatten.
+
+(* swizzleRanks.  perm[i] = index in the old rank order of the rank that becomes rank i.
+   For a tensor of uniform depth n = length perm with strictly ascending coordinates in every
+   fiber (explicit defaults and empty sub-fibers allowed), the content of the result is the
+   content of the operand with every point's coordinates permuted, sorted: *)
+Theorem C09_swizzle : forall d perm t,
+  is_perm_of perm (length perm) = true -> (1 <= length perm)%nat ->
+  cdepth_ok (length perm) t = true -> csorted t = true ->
+  ccontent d (swizzle perm t)
+  = sort_by kcmp fst (map (on_pt (permute_key perm)) (ccontent d t)).
+Proof. exact swizzle_sorted_content. Qed.
+Print Assumptions C09_swizzle.
+
+(* ... as a multiset this needs no sortedness of the operand ... *)
+Theorem C09_swizzle_perm : forall d perm t,
+  is_perm_of perm (length perm) = true -> cdepth_ok (length perm) t = true -> (1 <= length perm)%nat ->
+  Permutation (ccontent d (swizzle perm t)) (map (on_pt (permute_key perm)) (ccontent d t)).
+Proof. exact swizzle_content. Qed.
+Print Assumptions C09_swizzle_perm.
+
+(* ... the result is a well-formed tree (sorted, uniform depth) ... *)
+Theorem C09_swizzle_wf : forall perm t,
+  is_perm_of perm (length perm) = true -> (1 <= length perm)%nat ->
+  cdepth_ok (length perm) t = true -> csorted t = true ->
+  csorted (swizzle perm t) = true /\ cdepth_ok (length perm) (swizzle perm t) = true.
+Proof. exact swizzle_wf. Qed.
+Print Assumptions C09_swizzle_wf.
+
+(* ... and swizzling with the inverse permutation restores an equal tensor *)
+Theorem C09_swizzle_inv : forall d perm t,
+  is_perm_of perm (length perm) = true -> (1 <= length perm)%nat ->
+  cdepth_ok (length perm) t = true -> csorted t = true ->
+  ccontent d (swizzle (inv_perm perm) (swizzle perm t)) = ccontent d t.
+Proof. exact swizzle_inverse. Qed.
+Print Assumptions C09_swizzle_inv.
+
+(* the rebuild loop of swizzleRanks (append below the shared prefix of the rightmost path):
+   for keys of one length n >= 1 the tree it builds carries exactly the keyed sub-trees *)
+Theorem C09_rebuild : forall d n kvs, (1 <= n)%nat ->
+  Forall (fun kv => length (fst kv) = n) kvs -> ccontent d (rebuild kvs) = keyed d kvs.
+Proof. exact rebuild_content. Qed.
+Print Assumptions C09_rebuild.
+
+(* Fiber.swapRanks (flatten "pair", sort by the reversed pair, unflatten) on a non-empty fiber
+   with one level of fibers below it: the content is the operand's with the first two
+   coordinates of every point exchanged *)
+Theorem C09_swap_fiber : forall fuel d es, wfl 1 es -> cempty d (CN es) = false ->
+  exists r, swap_fiber fuel d es = Some r
+    /\ Permutation (ccontent d (CN r)) (map (on_pt swap0) (ccontent d (CN es))).
+Proof. exact swap_fiber_content. Qed.
+Print Assumptions C09_swap_fiber.
+
+(* Tensor.swapRanks(depth), any depth, including the all-empty guard and all-default
+   sub-fibers at the swapped level: coordinates depth and depth+1 of every point are exchanged.
+   (That the result is sorted, which turns the Permutation into the equality with the sorted
+   image, is NOT proved for swap; the oracle checks csorted of every result.) *)
+Theorem C09_swap : forall depth fuel d es, swap_dom depth es ->
+  exists r, t_swap depth fuel d es = Some r
+    /\ Permutation (ccontent d (CN r)) (map (on_pt (nunder depth swap0)) (ccontent d (CN es))).
+Proof. exact t_swap_content. Qed.
+Print Assumptions C09_swap.
+
+Theorem C09_swap_point_map : forall depth p, (depth + 2 <= length p)%nat ->
+  nunder depth swap0 p = img_swap depth p.
+Proof. exact nunder_swap0. Qed.
+Print Assumptions C09_swap_point_map.
+
+(* the Below descent for transforms that are correct up to permutation and only on non-empty
+   fibers (swapRanksBelow) *)
+Theorem C09_below_perm : forall (W : cfib -> Prop) f g d,
+  (forall s, W s -> cempty d (CN s) = false ->
+     exists r, f s = Some r /\ Permutation (ccontent d (CN r)) (map (on_pt g) (ccontent d (CN s)))) ->
+  forall k es, at_depth k W es ->
+  exists r, upd_below k f d es = Some r
+    /\ Permutation (ccontent d (CN r)) (map (on_pt (nunder (S k) g)) (ccontent d (CN es)))
+    /\ map fst r = map fst es.
+Proof. exact below_perm. Qed.
+Print Assumptions C09_below_perm.
 
 (* the comparison used for sortedness everywhere (Python's tuple order) is a strict order
    whose Eq is equality *)
@@ -117,8 +186,12 @@ Print Assumptions C09_oracle_sound.
    Proved part: the observation pipeline is lossless — the oracle evaluated on the model's
    encoded observation is the oracle evaluated on the model's result tree (so verdict bit 4 of
    every run tests exactly "the model's result satisfies the property"); that this is [true]
-   is proved for the content of flatten / unflatten / the Below descent above and tested for
-   the other operations. *)
+   is proved above, clause by clause, for the content of swizzle (+ inverse, + csorted/cdepth_ok
+   of the result), swap at any depth (up to permutation), flatten tuple/pair at any number of
+   levels, unflatten, unflatten . flatten and the Below descent; it is NOT proved (tested on
+   every case by verdict bit 4) for: linear flatten, absolute/relative merge, flatten(split),
+   csorted/cdepth_ok/rank counts of the swap, flatten, merge and unflatten results, and the
+   step from the clause theorems to content_ok (injectivity of the point maps). *)
 Theorem C09_model_meets_spec_partial : forall c,
   holds c09_checker c (model c09_checker c)
   = c09_wf c &&
